@@ -385,6 +385,73 @@ Fixpoint cmap12_take (n : nat) (groups : list (list Z)) (limits : option (Z * Z)
       end
   end.
 
+
+(* ------------------------------------------------------------------ postscript/dict.rs: parse_bcd *)
+(* the closure `push`: `if n < MAX_LEN { buf[n] = byte; n += 1; Ok(()) } else { Err(InvalidNumber) }` with n = length buf;
+   `buf[n]` on the 32-byte array is an index check *)
+Definition BCD_MAX_LEN : Z := 32.
+Definition bcd_push (buf : list Z) (byte : Z) : res (list Z) :=
+  if blen buf <? BCD_MAX_LEN then
+    (if (0 <=? blen buf) && (blen buf <? 32) then Ok (buf ++ [byte]) else Panic)
+  else Err InvalidNumber.
+(* one nibble: Ok (buf', stop) *)
+Definition bcd_nibble (buf : list Z) (nib : Z) : res (list Z * bool) :=
+  if (0 <=? nib) && (nib <=? 9) then rdo b <- bcd_push buf (48 + nib) ;; Ok (b, false)
+  else if nib =? 10 then rdo b <- bcd_push buf 46 ;; Ok (b, false)          (* '.' *)
+  else if nib =? 11 then rdo b <- bcd_push buf 69 ;; Ok (b, false)          (* 'E' *)
+  else if nib =? 12 then rdo b <- bcd_push buf 69 ;; rdo b <- bcd_push b 45 ;; Ok (b, false)   (* "E-" *)
+  else if nib =? 14 then rdo b <- bcd_push buf 45 ;; Ok (b, false)          (* '-' *)
+  else if nib =? 15 then Ok (buf, true)
+  else Err InvalidNumber.
+(* the 'outer loop; out of fuel = Err MalformedData (unreachable with fuel > remaining bytes) *)
+Fixpoint bcd_loop (fuel : nat) (c : cursor) (buf : list Z) : cursor * res (list Z) :=
+  match fuel with
+  | O => (c, Err MalformedData)
+  | S k =>
+      let '(c1, r) := c_read 1 c in
+      match r with
+      | Ok b =>
+          match bcd_nibble buf (Z.land (Z.shiftr b 4) 15) with
+          | Ok (buf1, true) => (c1, Ok buf1)
+          | Ok (buf1, false) =>
+              match bcd_nibble buf1 (Z.land b 15) with
+              | Ok (buf2, true) => (c1, Ok buf2)
+              | Ok (buf2, false) => bcd_loop k c1 buf2
+              | Err e => (c1, Err e)
+              | Panic => (c1, Panic)
+              end
+          | Err e => (c1, Err e)
+          | Panic => (c1, Panic)
+          end
+      | Err e => (c1, Err e)
+      | Panic => (c1, Panic)
+      end
+  end.
+(* str::parse::<f64> over the alphabet parse_bcd can produce accepts exactly: optional minus, then digits with an optional
+   point and optional further digits (at least one digit in total), then optionally E, optional minus, one or more digits *)
+Fixpoint take_digits (l : list Z) : nat * list Z :=
+  match l with
+  | d :: r => if (48 <=? d) && (d <=? 57) then let '(n, r') := take_digits r in (S n, r') else (O, l)
+  | [] => (O, [])
+  end.
+Definition f64_syntax_ok (s : list Z) : bool :=
+  let s := match s with 45 :: r => r | _ => s end in
+  let '(n1, s) := take_digits s in
+  let '(n2, s) := match s with 46 :: r => take_digits r | _ => (O, s) end in
+  if Nat.eqb (n1 + n2) 0 then false else
+  match s with
+  | [] => true
+  | 69 :: r =>
+      let r := match r with 45 :: r' => r' | _ => r end in
+      let '(n3, r) := take_digits r in
+      negb (Nat.eqb n3 0) && match r with [] => true | _ => false end
+  | _ => false
+  end.
+(* parse_bcd(cursor): Ok = the decimal string that parsed as an f64 (the Fixed value itself is not modelled) *)
+Definition parse_bcd (c : cursor) : cursor * res (list Z) :=
+  let '(c1, r) := bcd_loop (S (length (cdata c))) c [] in
+  (c1, rdo s <- r ;; if f64_syntax_ok s then Ok s else Err InvalidNumber).
+
 (* ================= correspondence ops 18.. (harness/src/bin/c01.rs) ================= *)
 Definition enc_run (r : res (list Z * bool)) : list Z :=
   match r with
@@ -422,6 +489,7 @@ Definition eval_op_h (op : Z) (d : list Z) (args : list Z) : list Z :=
       | Err e => err_code e
       | Panic => [3]
       end
+  | 23, [] => enc (fun _ => [0]) (snd (parse_bcd (cursor0 d)))
   | _, _ => [-999]
   end.
 
